@@ -24,8 +24,8 @@ CHECKS = {
          "whole records with headers only through kernel K1 (catalogue of concrete headers); suffix length fixed at 2"),
  "C08": ("§6.C08", "For 18 catalogue types and all their shapes, every strict prefix of the reference encoding (cut points enumerated with concrete lengths, payload symbolic) decodes to Err; also an unknown-length sequence without its terminator and a record cut before the tag of a trailing optional field.",
          "stored version 0 only; truncation of derived enums, strings and sequences with more than two elements does not finish (tier=off)"),
- "C10": ("§6.C10", "Small: a user codec built on store_ref_or_object / try_read_ref (identity = heap address), labels symbolic: quick tier decides the one-node graph (encode == reference stream, decode rebuilds it) and that on a fresh stream every non-zero object number is InvalidRefId for all 5-byte varints; the thorough tier adds the two-node chain (distinct nodes stay distinct, no edge invented).",
-         "anything with more than two offers in one stream does not finish (pointers stored in heap-allocated map entries): cycles/diamonds on 3 nodes and offer histories are kept as tier=off harnesses; the seeded change M-C10 is not caught"),
+ "C10": ("§6.C10", "Small: a user codec built on store_ref_or_object / try_read_ref (identity = heap address), labels symbolic: quick tier decides the one-node graph (encode == reference stream, decode rebuilds it), that on a fresh stream every non-zero object number is InvalidRefId for all 5-byte varints, and that object numbers count distinct objects rather than offers (offer x twice, then y is number 2); the thorough tier adds the two-node chain (distinct nodes stay distinct, no edge invented).",
+         "streams with more than three store_ref calls do not finish (pointers stored in heap-allocated map entries): cycles/diamonds on 3 nodes and longer offer histories are kept as tier=off harnesses"),
  "C11": ("§6.C11", "Exactly the property's quantifier: all 2^32 u32 and all 2^32 i32 values through Vec<u8>, BytesMut and SizeCalculator outputs and SliceInput, OwnedInput and DeserializationContext inputs: bytes == reference formula, minimal length, continuation bits, read inverts write, cursor advanced by the length. No bound.",
          "none beyond the trusted base"),
  "C12": ("§6.C12", "One symbolic element list (n = 0, 2, 3; also zero-width elements) in the known-length and in the unknown-length form decodes identically as Vec, LinkedList and [E; n]; Vec, slice, array, LinkedList encode identically; inexact iterators (no upper bound; symbolic upper bound) yield the unknown-length form; byte containers (Vec<u8>, &[u8], [u8; n], Bytes) are interchangeable.",
